@@ -215,7 +215,9 @@ def doQ (d : D) (rest : List (List String)) : D × List (List String) :=
   let pick := (List.range n).findSome? fun k =>
     let idx := (d.rr + k) % n
     match allTh[idx]? with
-    | some t => if steppable d t then some (idx, t) else none
+    | some t =>
+      -- the quiescing policy finishes what was started; it does not start a Stop call
+      if steppable d t && !((t == .s0 || t == .s1) && pointOf d t == "stop.call") then some (idx, t) else none
     | none => none
   match pick with
   | some (idx, t) =>
@@ -243,6 +245,7 @@ def doOpW (d : D) (op : List String) (impl : List (List String)) : D × List (Li
     | none => (d, [["bad-op"]])
   | ["q", n] => qLoop ((parseNat n).getD 0) d [] impl
   | ["final"] => (d, finalLines d)
+  | ["free", _, _] => (d, impl)   -- free-running stress: nothing to predict, only the oracle applies
   | _ => (d, [["bad-op"]])
 
 def initD (c : Case) : D :=
@@ -270,6 +273,7 @@ def evOf (l : List String) : List LifecycleSpec.Ev :=
     | some id => [.sink id]
     | none => []
   | ["final", t, "blocked"] => [.stuck t]
+  | ["panicked", t] => [.panicked t]
   | _ => []
 
 def run (c : Case) : CaseOut := Id.run do
@@ -295,6 +299,8 @@ def run (c : Case) : CaseOut := Id.run do
       match l with
       | ["th", _, pt] => unless tags.contains pt do tags := pt :: tags
       | ["refused", _] => unless tags.contains "refused" do tags := "refused" :: tags
+      | ["anomaly-unreproduced", w] => tags := ("free-anomaly-unreproduced-" ++ w) :: tags
+      | ["goroutines-left", _] => unless tags.contains "goroutines-left" do tags := "goroutines-left" :: tags
       | _ => pure ()
   -- Stop calls started = stop threads that moved at all
   let started := (c.ops.flatMap (·.2)).filter fun l => match l with
